@@ -127,6 +127,13 @@ PROPS = {
                      "entries: Prefix/Suffix/Style/Tag/Suppress/NoSpace/Usage/Filter/MultiParts/UniqueList/Batch/partition/ActionMessage with arguments/"
                      "ActionMultiParts) and a history of 3-9 invocations (pool index, Context) with repeats and interleavings; every step is compared "
                      "with the pure model and with the first invocation of a freshly rebuilt pool; non-trivial = at least 3 steps"),
+    "C09": dict(streams=[dict(harness="batch", model="algebra", oracle="algebra_oracle", quick=3000, thorough=120000),
+                         dict(harness="batchrace", model="algebra", oracle=None, race=True, quick=600, thorough=20000)],
+                tie="Model/Action.v Batch = merge of the members' sequential completions <-> real Batch under goroutines (GOMAXPROCS 1/2/16, jitter) and under the race detector",
+                rule="cases = Batches of 2-5 members: jittered expressions (runtime.Gosched / sleeps inside callbacks), the SAME Action value as several "
+                     "members, nested batches, members that Setenv and read the environment, shared static Actions; stream `batch` compares the merged "
+                     "completion with the sequential merge (model and reference algebra) under GOMAXPROCS 1, 2, 16; stream `batchrace` runs the same "
+                     "kind of workload in a -race build and fails on any report of the Go race detector"),
 }
 
 TRUSTED = ["Go harness stream(s) and extracted oracle of this property (see rule)"]
@@ -148,11 +155,26 @@ def explore(pid, ctx):
     for st in cfg["streams"]:
         count = ctx.get("count") or st[tier if tier in st else "quick"]
         scratch = os.path.join(lib.WORK, pid + "-" + st["harness"])
-        cases, notes, errs = lib.run_harness(st["harness"], seed, count, tier, scratch, extra_env=st.get("env"))
+        binary = "harness"
+        if st.get("race"):
+            ok, log = lib.ensure_race_harness()
+            if not ok:
+                errors.append("race build failed: " + log[-800:])
+                continue
+            binary = "harness-race"
+        cases, notes, errs = lib.run_harness(st["harness"], seed, count, tier, scratch, extra_env=st.get("env"), binary=binary)
+        stderr = notes.pop("_stderr", "")
+        if st.get("race") and "WARNING: DATA RACE" in stderr:
+            rep = stderr[stderr.index("WARNING: DATA RACE"):]
+            rep = rep[:rep.index("==================", 20)] if "==================" in rep[20:] else rep[:3000]
+            frames = [l.strip() for l in rep.split("\n") if l.strip().startswith("github.com/carapace-sh/carapace")][:6]
+            failures.append(dict(index=-1, kind="data-race", shell=st["harness"], detail=(" | ".join(frames) or rep[:300]).encode(),
+                                 case=[str(seed).encode(), str(count).encode()], impl=[rep[:4000].encode()]))
         cases = load_corpus(pid, st) + cases
         errors += errs
         for k, v in notes.items():
-            notes_all[st["harness"] + ":" + k] = v
+            if k != "_stderr":
+                notes_all[st["harness"] + ":" + k] = v
         model_out = lib.run_model([(st["model"], f) for _, f, _ in cases]) if st.get("model") else [None] * len(cases)
         if st.get("oracle"):
             oracle_out = lib.run_model([(st["oracle"], f + [b"|"] + impl) for _, f, impl in cases])
